@@ -139,7 +139,7 @@ fn kind_name(k: &OpKind) -> String {
         OpKind::SameCell(..) => "same_cell".into(),
         OpKind::BumpViaRhs => "bump_via_rhs".into(),
         OpKind::Pull => "pull".into(),
-        OpKind::MkFresh => "mk_fresh".into(),
+        OpKind::MkFresh(v) => format!("mk_fresh/{}", v % 4),
         OpKind::SelfShow => "self_show".into(),
         OpKind::SelfSet(_) => "self_set".into(),
         OpKind::SelfTie => "self_tie".into(),
@@ -255,11 +255,16 @@ pub fn run_sequential(sc: &Scenario) -> RunReport {
                     return rep;
                 }
                 Ok(Err(e)) => {
-                    rep.rejected_ops.push(src.clone());
-                    if !matches!(op.kind, OpKind::Attack(_)) {
-                        rep.violation = Some(("rejected-valid-assignment".into(), format!("step {step}: `{src}` is rejected: {e}")));
-                        return rep;
+                    // A rejected operation is not a violation: C13 speaks about what accepted
+                    // assignments do (no property demands that the checker accept a program).
+                    // Rejections of non-attack operations are counted; the driver refuses to give a
+                    // verdict if they become so frequent that the workload is vacuous.
+                    if matches!(op.kind, OpKind::Attack(_)) {
+                        rep.rejected_ops.push(src.clone());
+                    } else {
+                        rep.rejected_ops.push(format!("UNEXPECTED {src}"));
                     }
+                    let _ = e;
                     rep.log.push(format!("{step}: {src} -> rejected"));
                     continue;
                 }
@@ -401,7 +406,7 @@ pub fn run_concurrent(sc: &Scenario) -> RunReport {
                         rep.violation = Some(("panic".into(), format!("parsing `{src}` panicked: {p}")));
                         return rep;
                     }
-                    Ok(Err(_)) => rep.rejected_ops.push(src),
+                    Ok(Err(_)) => rep.rejected_ops.push(format!("UNEXPECTED {src}")),
                     Ok(Ok(c)) => {
                         *kinds.entry(kind_name(&op.kind)).or_default() += 1;
                         v.push((op.clone(), c));
@@ -501,10 +506,15 @@ pub fn run_concurrent(sc: &Scenario) -> RunReport {
             }
         }
         // oracle L: per-cell linearizability against the sequential reference
+        let repointed = hist.iter().any(|h| h.op.cell == CC && matches!(h.op.kind, OpKind::Set(Val::Ref(_))));
         for cell in 0..CELLS.len() {
+            if repointed && (CELLS[cell].kind == Kind::Int || cell == CC) {
+                // `*cc` is a moving alias: which int cell an operation through it hit is not recorded
+                continue;
+            }
             let entries: Vec<&HistEntry> = hist
                 .iter()
-                .filter(|h| h.op.cell == cell && !matches!(h.op.kind, OpKind::Pull | OpKind::SelfShow | OpKind::SelfSet(_) | OpKind::SelfTie | OpKind::MkFresh | OpKind::Attack(_)))
+                .filter(|h| h.op.cell == cell && !matches!(h.op.kind, OpKind::Pull | OpKind::SelfShow | OpKind::SelfSet(_) | OpKind::SelfTie | OpKind::MkFresh(_) | OpKind::Attack(_)))
                 .collect();
             if entries.len() <= 1 {
                 continue;
@@ -696,6 +706,10 @@ pub const SHARED_PROGS: &[&str] = &[
     "p := [5, 1, 4]~ \\ (x: int) -> bool { return x > 2 }; p",
     "c := mut 1; d := c; d *= 5; c <<= 1; (*c, *d, c == d)",
     "n := mut 0; loop { n += 1; if *n > 4 { break } }; ([1, \"a\", 2.5]~ ? int) $]",
+    "a := [true, true, false]~ $&&; b := [false, true]~ $||; c := [12, 10]~ $&; d := [1, 2, 4]~ $|; (a, b, c, d)",
+    "p := [2, 3, 4]~ $*; q := [1.5, 2.0]~ $+; r := [1, 2, 3]~ $100 (acc: int, x: int) -> int { return acc - x }; (p, q, r)",
+    "s := std.operators.int_sum([1, 2, 3]~); t := std.operators.string_sum([\"a\", \"b\"]~); u := std.operators.all([true, false]~); (s, t, u, std.len([1, 2]))",
+    "cnt := mut 0; it := () -> (bool, int) { cnt += 1; return (*cnt <= 4, *cnt) }; ev := it ? (x: int) -> bool { return x % 2 == 0 }; sq := ev @ (x: int) -> int { return x * x }; (sq $], *cnt)",
 ];
 
 /// Draws one concurrent scenario from the run's seed (swarm: thread count, ops, cells, policy).
@@ -732,8 +746,11 @@ pub fn gen_concurrent(seed: u64, boot_seed: u64, run: u64) -> Scenario {
         4 => vec![6, 0],
         _ => vec![],
     };
+    let repoint = rng.chance(1, 7);
+    let focus = if repoint { vec![9, 0, 9, 7] } else { focus };
     let cfg = GenCfg {
         concurrent: true,
+        repoint,
         fail_rate: [0, 100, 300][rng.below(3)],
         cells: focus,
         allow_show: rng.chance(2, 3),
@@ -757,6 +774,7 @@ pub fn gen_sequential(seed: u64, boot_seed: u64, run: u64) -> Scenario {
     };
     let cfg = GenCfg {
         concurrent: false,
+        repoint: false,
         fail_rate: [0, 150, 400][rng.below(3)],
         cells: focus,
         allow_show: true,
